@@ -938,7 +938,15 @@ func (env *Env) callExpr(x *ast.CallExpr) EVal {
 		body := sub.eval(x.Args[3])
 		if len(pend) > 0 {
 			// facts about values loaded under the binder hold for every index in range (heap well-formedness)
-			env.tr.assume(f.Forall([]*Term{bv}, f.Implies(rng, f.And(pend...))), "well-formedness of values loaded under a quantifier")
+			fact := f.Forall([]*Term{bv}, f.Implies(rng, f.And(pend...)))
+			if containsBound(fact, map[*Term]bool{}) && freeBoundVars(fact) {
+				// still mentions a variable of an enclosing quantifier: hand it to that binder
+				if env.pending != nil {
+					*env.pending = append(*env.pending, fact)
+				}
+			} else {
+				env.tr.assume(fact, "well-formedness of values loaded under a quantifier")
+			}
 		}
 		if name == "forall" {
 			return env.boolVal(f.Forall([]*Term{bv}, f.Implies(rng, body.V[0])))
@@ -1073,6 +1081,20 @@ func (env *Env) callExpr(x *ast.CallExpr) EVal {
 			env.fail("implements: second argument must be a string literal")
 		}
 		return env.boolVal(f.And(f.Neq(v.V[0], f.BVi(64, 0)), f.App("implements_"+sanitize(fmt.Sprintf("%x", strHash(constant.StringVal(nm.C)))), SBool, v.V[0])))
+	case "has":
+		// has(m, k): key k is present in map m
+		argN(2)
+		m := env.eval(x.Args[0])
+		mt, ok := m.T.Underlying().(*types.Map)
+		if !ok {
+			env.fail("has: first argument must be a map")
+		}
+		k := env.eval(x.Args[1])
+		if k.C != nil {
+			k = env.asType(k, mt.Key())
+		}
+		_, present := env.tr.mapGet(env.curState(), m.T, m.V[0], k.V)
+		return env.boolVal(present)
 	case "sameslice":
 		// sameslice(x, y): same backing region, offset and length (y is typically a slice expression over a parameter)
 		argN(2)
